@@ -181,6 +181,32 @@ func init() {
 		}, sp
 	}})
 
+	// T1: two requests on different resources whose handlers send a timeout pre-response before replying.
+	reg(&Scenario{Name: "T1", Make: func(cfg Cfg) (func(), *Spec) {
+		sp := &Spec{MustRun: []string{"R1", "R2"}, Closes: -1,
+			WantPre: map[string]string{"R1": `timeout:"42000"`, "R2": `timeout:"5000"`}}
+		return func() {
+			var w *World
+			w = NewWorld(cfg, res.Call("t", func(r res.CallRequest) {
+				w.CB(r.Query(), r.Group(), w.RefGroup(r.ResourceName()))
+				if strings.HasSuffix(r.ResourceName(), ".1") {
+					r.Timeout(42 * time.Second)
+				} else {
+					r.Timeout(5 * time.Second)
+				}
+				r.OK(nil)
+			}))
+			sdone := make(chan struct{}, 1)
+			w.StartServe(sdone)
+			done := make(chan struct{}, 4)
+			spawn("N1", done, func() { w.Req("call."+w.A("1")+".t", "R1") })
+			spawn("N2", done, func() { w.Req("call."+w.A("2")+".t", "R2") })
+			join(done, 2)
+			vsched.AwaitQuiescence()
+			vsched.Emit(Mon, "quiesced")
+		}, sp
+	}})
+
 	// Q2 idle->busy: a group drains completely, then is hit again by P and N concurrently.
 	reg(&Scenario{Name: "Q2", Make: func(cfg Cfg) (func(), *Spec) {
 		sp := &Spec{MustRun: []string{"W0", "R1", "W1"}, Closes: -1, Order: [][2]string{{"W0", "R1"}, {"W0", "W1"}}}
